@@ -6,8 +6,8 @@ use std::io::Write;
 
 use serde::{Deserialize, Serialize};
 
-use crate::check::{check_outcome, classify_noreturn, mk_violation, RefTable, Violation, CHILD_TIMEOUT_MS};
-use crate::forkrun::{run_forked, ChildFail};
+use crate::check::{classify_noreturn, mk_violation, RefTable, Violation, CHILD_TIMEOUT_MS};
+use crate::forkrun::run_forked;
 use crate::gen::{Corpus, Gen};
 use crate::ops::{Obs, Op, Opts};
 use crate::plan::{Outcome, Plan};
@@ -267,63 +267,24 @@ fn run_one(plan: &Plan, refs: &mut RefTable, rerun: bool, want_sample: bool) -> 
     if want_sample {
         plan.keep_log = true;
     }
-    let first = run_forked(&plan, CHILD_TIMEOUT_MS);
-    let out = match first {
-        Ok(o) => o,
-        Err(ChildFail::Timeout) => {
-            rep.herr = Some("watchdog: child did not finish within the time limit (unmodelled blocking primitive or runaway computation)".into());
-            rep.plan = Some(plan);
-            return rep;
-        }
-        Err(ChildFail::Signal(sig)) => {
-            // does some operation kill the process already in its reference context
-            // (stack overflow, abort)? then there is nothing to compare
-            let mut env = plan.env_before.clone();
-            let mut ref_dies = false;
-            for c in plan.threads.iter().flatten().chain(plan.sentinel.iter()) {
-                if let Op::SetEnv { value } = &c.op {
-                    env = value.clone();
-                    continue;
-                }
-                if refs.get(&c.op, &env).is_none() {
-                    ref_dies = true;
-                }
-            }
-            if ref_dies {
-                rep.unjudged = 1;
-                return rep;
-            }
-            // a context in which the process dies although every reference context survives
-            match run_forked(&plan, CHILD_TIMEOUT_MS) {
-                Err(ChildFail::Signal(sig2)) if sig2 == sig => {
-                    let dummy = Op::SetEnv { value: None };
-                    let mut v = mk_violation(
-                        "execution",
-                        usize::MAX,
-                        0,
-                        &dummy,
-                        &Obs::ok("process survives".into()),
-                        &Obs::noreturn(format!("process killed by signal {sig}")),
-                    );
-                    v.element = "process-abort".into();
-                    v.op_kind = "execution".into();
-                    rep.viol.push(v);
-                    rep.plan = Some(plan);
-                }
-                _ => {
-                    rep.herr = Some(format!("child killed by signal {sig}, not reproducible"));
-                    rep.plan = Some(plan);
-                }
-            }
-            return rep;
-        }
-        Err(ChildFail::Other(e)) => {
-            rep.herr = Some(format!("child failed: {e}"));
+    let (out, res) = match crate::check::run_and_check(&plan, refs) {
+        Ok(x) => x,
+        Err(e) => {
+            rep.herr = Some(e);
             rep.plan = Some(plan);
             return rep;
         }
     };
-    let res = check_outcome(&plan, &out, refs);
+    if out.calls.is_empty() && !plan.threads.is_empty() {
+        // the child died or never finished: there is no outcome to take statistics from
+        rep.unjudged = res.unjudged as u64;
+        rep.judged = res.judged as u64;
+        rep.viol = res.violations;
+        if !rep.viol.is_empty() {
+            rep.plan = Some(plan);
+        }
+        return rep;
+    }
     if let Some(e) = res.harness_error {
         rep.herr = Some(e);
         rep.plan = Some(plan);
@@ -434,7 +395,19 @@ pub fn work(gen: &Gen, cfg: &WorkerCfg) {
     let mut refs = RefTable::default();
     for (stratum, total) in [("A", cfg.tier.a), ("B", cfg.tier.b), ("C", cfg.tier.c)] {
         let mut i = cfg.w;
+        let mut watchdogs = 0u32;
         while i < total {
+            if watchdogs >= 2 {
+                // every further execution would cost another full time limit
+                emit(&ExecReport {
+                    stratum: stratum.to_string(),
+                    i,
+                    herr: Some("skipped: the watchdog fired twice in this stratum on this worker".into()),
+                    ..Default::default()
+                });
+                i += cfg.nw;
+                continue;
+            }
             let mut plan = match stratum {
                 "A" => gen.plan_a(i, cfg.tier.a_k),
                 "B" => gen.plan_b(i, &cfg.panickers),
@@ -447,6 +420,11 @@ pub fn work(gen: &Gen, cfg: &WorkerCfg) {
             let rerun = i % 50 == 7;
             let want_sample = i < cfg.samples_per_stratum;
             let mut rep = run_one(&plan, &mut refs, rerun, want_sample);
+            if rep.herr.as_deref().is_some_and(|e| e.starts_with("watchdog"))
+                || rep.viol.iter().any(|v| v.element == "no-return")
+            {
+                watchdogs += 1;
+            }
             rep.i = i;
             rep.refs_computed = refs.computed - before.0;
             rep.refs_crashed = refs.crashed - before.1;
